@@ -204,12 +204,35 @@ def Ite(c, a, b):
     return _mk('ite', (c, a, b), a.sort)
 
 
-def _dist_cmp(f, a, k, swap=False):
-    """distribute comparison with constant k over a const-leaf ite tree a"""
+def _dist_cmp(f, a, k, swap=False, memo=None):
+    """distribute comparison with constant k over a const-leaf ite DAG a (memoised per call)"""
+    if memo is None:
+        memo = {}
+    r = memo.get(a.tid)
+    if r is not None:
+        return r
     if a.op == 'const':
-        return f(k, a) if swap else f(a, k)
-    c, x, y = a.args
-    return Ite(c, _dist_cmp(f, x, k, swap), _dist_cmp(f, y, k, swap))
+        r = f(k, a) if swap else f(a, k)
+    else:
+        c, x, y = a.args
+        r = Ite(c, _dist_cmp(f, x, k, swap, memo), _dist_cmp(f, y, k, swap, memo))
+    memo[a.tid] = r
+    return r
+
+
+def _map_cl(f, a, memo=None):
+    """apply unary f to the leaves of a const-leaf ite DAG"""
+    if memo is None:
+        memo = {}
+    r = memo.get(a.tid)
+    if r is not None:
+        return r
+    if a.op == 'const':
+        r = f(a)
+    else:
+        r = Ite(a.args[0], _map_cl(f, a.args[1], memo), _map_cl(f, a.args[2], memo))
+    memo[a.tid] = r
+    return r
 
 
 def Eq(a, b):
@@ -236,6 +259,10 @@ def Eq(a, b):
             return _dist_cmp(Eq, a, b)
         if a.op == 'const' and b.cl:
             return _dist_cmp(Eq, b, a)
+        if a.cl and b.cl:
+            r = _cl_binop(Eq, a, b)
+            if r is not None:
+                return r
     if a.tid > b.tid:
         a, b = b, a
     return _mk('=', (a, b), B)
@@ -257,11 +284,39 @@ def _bin(op, a, b, f, comm=False):
     return _mk(op, (a, b), w)
 
 
+CL_LIMIT = 48
+
+
+def _cl_small(t):
+    """const-leaf ite DAG with few distinct leaves (pointer-/counter-like value)"""
+    if t.op != 'ite' or not t.cl:
+        return False
+    lv = leaf_consts(t, CL_LIMIT)
+    return lv is not None
+
+
+def _cl_binop(f, a, b):
+    """push a binary op into const-leaf ite DAGs so that counters stay ite-trees over constants"""
+    if a.op == 'const' and _cl_small(b):
+        return _map_cl(lambda x: f(a, x), b)
+    if b.op == 'const' and _cl_small(a):
+        return _map_cl(lambda x: f(x, b), a)
+    if a.op == 'ite' and b.op == 'ite' and a.cl and b.cl:
+        la = leaf_consts(a, CL_LIMIT)
+        lb = leaf_consts(b, CL_LIMIT)
+        if la is not None and lb is not None and len(la) * len(lb) <= CL_LIMIT:
+            return _map_cl(lambda x: _map_cl(lambda y: f(x, y), b), a)
+    return None
+
+
 def Add(a, b):
     if a.op == 'const' and a.args[0] == 0:
         return b
     if b.op == 'const' and b.args[0] == 0:
         return a
+    r = _cl_binop(Add, a, b)
+    if r is not None:
+        return r
     return _bin('bvadd', a, b, lambda x, y, w: x + y, True)
 
 
@@ -270,6 +325,9 @@ def Sub(a, b):
         return a
     if a is b:
         return bv(0, a.sort)
+    r = _cl_binop(Sub, a, b)
+    if r is not None:
+        return r
     return _bin('bvsub', a, b, lambda x, y, w: x - y)
 
 
@@ -348,6 +406,10 @@ def Ult(a, b):
         return _dist_cmp(Ult, a, b)
     if a.op == 'const' and b.cl:
         return _dist_cmp(Ult, b, a, True)
+    if a.cl and b.cl:
+        r = _cl_binop(Ult, a, b)
+        if r is not None:
+            return r
     if a.op == 'const' and a.args[0] == 0:
         return Not(Eq(b, a))
     if b.op == 'const' and b.args[0] == 1:
@@ -396,7 +458,7 @@ def ZExt(a, w):
     if a.op == 'const':
         return bv(a.args[0], w)
     if a.op == 'ite' and a.cl:
-        return Ite(a.args[0], ZExt(a.args[1], w), ZExt(a.args[2], w))
+        return _map_cl(lambda x: ZExt(x, w), a)
     return _mk('zext', (w - a.sort, a), w)
 
 
@@ -418,7 +480,7 @@ def Extract(hi, lo, a):
     if a.op == 'zext' and hi < a.args[1].sort:
         return Extract(hi, lo, a.args[1])
     if a.op == 'ite' and a.cl:
-        return Ite(a.args[0], Extract(hi, lo, a.args[1]), Extract(hi, lo, a.args[2]))
+        return _map_cl(lambda x: Extract(hi, lo, x), a)
     return _mk('extract', (hi, lo, a), w)
 
 
@@ -437,6 +499,28 @@ def Resize(a, w, signed=False):
     if w < a.sort:
         return Extract(w - 1, 0, a)
     return SExt(a, w) if signed else ZExt(a, w)
+
+
+def leaf_consts(t, limit=256):
+    """set of constant leaves of a const-leaf ite tree, or None"""
+    if not t.cl:
+        return None
+    out = set()
+    stack = [t]
+    seen = set()
+    while stack:
+        x = stack.pop()
+        if x.tid in seen:
+            continue
+        seen.add(x.tid)
+        if x.op == 'const':
+            out.add(x.args[0])
+            if len(out) > limit:
+                return None
+        else:
+            stack.append(x.args[1])
+            stack.append(x.args[2])
+    return out
 
 
 def B2BV(c, w):
@@ -463,7 +547,9 @@ def AddOvf(a, b):
         return boolc(a.args[0] + b.args[0] > _mask(w))
     if (a.op == 'const' and a.args[0] == 0) or (b.op == 'const' and b.args[0] == 0):
         return FALSE
-    return Ult(Add(a, b), a)
+    if a.tid > b.tid:
+        a, b = b, a
+    return _mk('addovf', (a, b), B)
 
 
 def SubOvf(a, b):
@@ -477,6 +563,9 @@ def MulOvf(a, b):
     for x in (a, b):
         if x.op == 'const' and x.args[0] in (0, 1):
             return FALSE
+    for x, y in ((a, b), (b, a)):
+        if x.op == 'const':
+            return Ult(bv(_mask(w) // x.args[0], w), y)
     wide = Mul(ZExt(a, 2 * w), ZExt(b, 2 * w))
     return Not(Eq(Extract(2 * w - 1, w, wide), bv(0, w)))
 
@@ -556,7 +645,48 @@ def node_str(t, name):
         if len(t.args) == 1:
             return t.args[0]
         return '(%s %s)' % (t.args[0], ' '.join(name(a) for a in t.args[1:]))
+    if op == 'addovf':
+        return '(bvult (bvadd %s %s) %s)' % (name(t.args[0]), name(t.args[1]), name(t.args[0]))
     return '(%s %s)' % (op, ' '.join(name(a) for a in t.args))
+
+
+class IntModeUnsupported(Exception):
+    pass
+
+
+def node_str_int(t, name):
+    """integer-semantics rendering: a BitVec(w) term is an Int in [0, 2^w)"""
+    op = t.op
+    a = t.args
+    if op == 'const':
+        if t.sort == B:
+            return 'true' if a[0] else 'false'
+        return str(a[0])
+    if op == 'var':
+        return a[0]
+    if op in ('not', 'and', 'or', 'ite', '='):
+        return '(%s %s)' % (op, ' '.join(name(x) for x in a))
+    if op == 'bvadd':
+        m = 1 << t.sort
+        return '(let ((s (+ %s %s))) (ite (>= s %d) (- s %d) s))' % (name(a[0]), name(a[1]), m, m)
+    if op == 'bvsub':
+        m = 1 << t.sort
+        return '(let ((s (- %s %s))) (ite (< s 0) (+ s %d) s))' % (name(a[0]), name(a[1]), m)
+    if op == 'addovf':
+        return '(>= (+ %s %s) %d)' % (name(a[0]), name(a[1]), 1 << a[0].sort)
+    if op == 'bvult':
+        return '(< %s %s)' % (name(a[0]), name(a[1]))
+    if op == 'zext':
+        return name(a[1])
+    if op == 'bvmul' and (a[0].op == 'const' or a[1].op == 'const'):
+        return '(mod (* %s %s) %d)' % (name(a[0]), name(a[1]), 1 << t.sort)
+    if op == 'bvneg':
+        return '(mod (- %s) %d)' % (name(a[0]), 1 << t.sort)
+    if op == 'uf':
+        if len(a) == 1:
+            return a[0]
+        return '(%s %s)' % (a[0], ' '.join(name(x) for x in a[1:]))
+    raise IntModeUnsupported(op)
 
 
 def to_str(t, depth=3):
@@ -567,9 +697,13 @@ def to_str(t, depth=3):
     return node_str(t, lambda a: to_str(a, depth - 1))
 
 
-def to_smt2(assertions, extra_decls=()):
-    """Returns (text, varlist).  Every shared node becomes a 0-ary define-fun."""
+def to_smt2(assertions, extra_decls=(), int_mode=False):
+    """Returns (lines, names, vars).  Every shared node becomes a 0-ary define-fun.
+    int_mode: render bit-vectors as integers in [0,2^w) with explicit wrap-around (raises
+    IntModeUnsupported when a bit-level operator occurs)."""
     order = postorder(assertions)
+    sstr = (lambda so: 'Bool' if so == B else 'Int') if int_mode else sort_str
+    nstr = node_str_int if int_mode else node_str
     uses = {}
     for t in order:
         for a in t.args:
@@ -582,14 +716,16 @@ def to_smt2(assertions, extra_decls=()):
     for t in order:
         if t.op == 'var':
             vars_.append(t)
-            lines.append('(declare-fun %s () %s)' % (t.args[0], sort_str(t.sort)))
+            lines.append('(declare-fun %s () %s)' % (t.args[0], sstr(t.sort)))
+            if int_mode and t.sort != B:
+                lines.append('(assert (and (<= 0 %s) (< %s %d)))' % (t.args[0], t.args[0], 1 << t.sort))
             names[t.tid] = t.args[0]
         elif t.op == 'uf':
             sig = (tuple(a.sort for a in t.args[1:]), t.sort)
             if t.args[0] not in ufs:
                 ufs[t.args[0]] = sig
                 lines.append('(declare-fun %s (%s) %s)' % (
-                    t.args[0], ' '.join(sort_str(s) for s in sig[0]), sort_str(sig[1])))
+                    t.args[0], ' '.join(sstr(s) for s in sig[0]), sstr(sig[1])))
             else:
                 assert ufs[t.args[0]] == sig, ('uf signature clash', t.args[0])
     for d in extra_decls:
@@ -602,12 +738,12 @@ def to_smt2(assertions, extra_decls=()):
         if t.op == 'var':
             continue
         if t.op == 'const':
-            names[t.tid] = const_str(t)
+            names[t.tid] = nstr(t, None) if int_mode else const_str(t)
             continue
-        s = node_str(t, nm)
+        s = nstr(t, nm)
         if uses.get(t.tid, 0) > 1 or len(s) > 200:
             n = 't%d' % t.tid
-            lines.append('(define-fun %s () %s %s)' % (n, sort_str(t.sort), s))
+            lines.append('(define-fun %s () %s %s)' % (n, sstr(t.sort), s))
             names[t.tid] = n
         else:
             names[t.tid] = s
@@ -657,7 +793,9 @@ def evaluate(roots, env, uf_eval=None):
                 v = -x & _mask(w)
             else:
                 y = val[a[1].tid]
-                if op == 'bvadd':
+                if op == 'addovf':
+                    v = (x + y) > _mask(w)
+                elif op == 'bvadd':
                     v = (x + y) & _mask(w)
                 elif op == 'bvsub':
                     v = (x - y) & _mask(w)
